@@ -341,6 +341,9 @@ func (w *world) slowAnswer(ctx context.Context, kind string, key uint64) error {
 	w.mu.Lock()
 	d, target, ct := w.delay, w.delayTarget, w.ct
 	w.mu.Unlock()
+	if err := ctx.Err(); err != nil {
+		return err // a request on a context that is done fails, as an HTTP client's does
+	}
 	if d == nil || ct == nil || d.Kind != kind || d.Key != key {
 		return nil
 	}
@@ -358,14 +361,14 @@ func (w *world) slowAnswer(ctx context.Context, kind string, key uint64) error {
 // clockSched is the recording scheduler, noting for every accepted one-off job the chain time's
 // current slot at the moment it was set up.
 type clockSched struct {
-	*mocks.RecScheduler
+	*ctxSched
 	ct     *mocks.ChainTime
 	mu     sync.Mutex
 	setups []string
 }
 
 func (s *clockSched) ScheduleJob(ctx context.Context, class string, name string, runtime time.Time, job scheduler.JobFunc) error {
-	err := s.RecScheduler.ScheduleJob(ctx, class, name, runtime, job)
+	err := s.ctxSched.ScheduleJob(ctx, class, name, runtime, job)
 	if err == nil {
 		if _, ctor, num, ok := parseJob(name); ok {
 			at := uint64(s.ct.CurrentSlot())
@@ -461,17 +464,17 @@ func (a *accountsProvider) accounts() map[phase0.ValidatorIndex]e2wtypes.Account
 	}
 	return res
 }
-func (a *accountsProvider) ValidatingAccountsForEpoch(_ context.Context, _ phase0.Epoch) (map[phase0.ValidatorIndex]e2wtypes.Account, error) {
-	return a.accounts(), nil
+func (a *accountsProvider) ValidatingAccountsForEpoch(ctx context.Context, _ phase0.Epoch) (map[phase0.ValidatorIndex]e2wtypes.Account, error) {
+	return a.accounts(), ctx.Err()
 }
-func (a *accountsProvider) ValidatingAccountsForEpochByIndex(_ context.Context, _ phase0.Epoch, _ []phase0.ValidatorIndex) (map[phase0.ValidatorIndex]e2wtypes.Account, error) {
-	return a.accounts(), nil
+func (a *accountsProvider) ValidatingAccountsForEpochByIndex(ctx context.Context, _ phase0.Epoch, _ []phase0.ValidatorIndex) (map[phase0.ValidatorIndex]e2wtypes.Account, error) {
+	return a.accounts(), ctx.Err()
 }
-func (a *accountsProvider) SyncCommitteeAccountsForEpoch(_ context.Context, _ phase0.Epoch) (map[phase0.ValidatorIndex]e2wtypes.Account, error) {
-	return a.accounts(), nil
+func (a *accountsProvider) SyncCommitteeAccountsForEpoch(ctx context.Context, _ phase0.Epoch) (map[phase0.ValidatorIndex]e2wtypes.Account, error) {
+	return a.accounts(), ctx.Err()
 }
-func (a *accountsProvider) SyncCommitteeAccountsForEpochByIndex(_ context.Context, _ phase0.Epoch, _ []phase0.ValidatorIndex) (map[phase0.ValidatorIndex]e2wtypes.Account, error) {
-	return a.accounts(), nil
+func (a *accountsProvider) SyncCommitteeAccountsForEpochByIndex(ctx context.Context, _ phase0.Epoch, _ []phase0.ValidatorIndex) (map[phase0.ValidatorIndex]e2wtypes.Account, error) {
+	return a.accounts(), ctx.Err()
 }
 
 // attester
@@ -500,12 +503,17 @@ func attPayload(d *attester.Duty) string {
 	return List(items)
 }
 
-func (a *recAttester) Attest(_ context.Context, duty *attester.Duty) ([]*phase0.Attestation, error) {
+// Attest on a context that is done attests to nothing (the real attester's requests and signatures
+// all fail), so nothing is logged.
+func (a *recAttester) Attest(ctx context.Context, duty *attester.Duty) ([]*phase0.Attestation, error) {
 	a.w.mu.Lock()
 	defer a.w.mu.Unlock()
 	if a.w.peek {
 		a.w.peekPay = append(a.w.peekPay, attPayload(duty))
 		return nil, nil
+	}
+	if err := ctx.Err(); err != nil {
+		return nil, err
 	}
 	a.w.attLog = append(a.w.attLog, Pair(N(uint64(duty.Slot())), attPayload(duty)))
 	return nil, nil
@@ -514,14 +522,19 @@ func (a *recAttester) Attest(_ context.Context, duty *attester.Duty) ([]*phase0.
 // proposer
 type recProposer struct{ w *world }
 
-func (p *recProposer) Prepare(_ context.Context, _ *beaconblockproposer.Duty) error { return nil }
-func (p *recProposer) Propose(_ context.Context, duty *beaconblockproposer.Duty) {
+// Prepare fails on a context that is done, as the real one does (it asks the account manager and a
+// possibly remote signer for the RANDAO reveal with that context).
+func (p *recProposer) Prepare(ctx context.Context, _ *beaconblockproposer.Duty) error { return ctx.Err() }
+func (p *recProposer) Propose(ctx context.Context, duty *beaconblockproposer.Duty) {
 	p.w.mu.Lock()
 	defer p.w.mu.Unlock()
 	pay := List([]string{triple(uint64(duty.ValidatorIndex()), 0, 0)})
 	if p.w.peek {
 		p.w.peekPay = append(p.w.peekPay, pay)
 		return
+	}
+	if ctx.Err() != nil {
+		return // proposing on a context that is done proposes nothing
 	}
 	p.w.propLog = append(p.w.propLog, Pair(N(uint64(duty.Slot())), pay))
 }
@@ -580,6 +593,7 @@ type ctl struct {
 	w     *world
 	ct    *mocks.ChainTime
 	sched *mocks.RecScheduler
+	cx    *ctxSched // sched made to honour the parent context of a job (what the controller talks to, through cs)
 	cs    *clockSched
 	ev    *mocks.EventsProvider
 	svc   *controller.Service
@@ -612,7 +626,8 @@ func (c *ctl) spec() eth2client.SpecProvider {
 func (c *ctl) start(t *testing.T) {
 	c.sched = mocks.NewRecScheduler()
 	c.sched.RunInline = true // RunJobIfExists (fast track, propose early) really runs the job
-	c.cs = &clockSched{RecScheduler: c.sched, ct: c.ct}
+	c.cx = newCtxSched(c.sched, func() time.Time { return c.ct.StartOfSlot(c.ct.CurrentSlot()) })
+	c.cs = &clockSched{ctxSched: c.cx, ct: c.ct}
 	c.ev = mocks.NewEventsProvider()
 	c.tick = nil
 	params := []controller.Parameter{
@@ -655,7 +670,8 @@ func (c *ctl) start(t *testing.T) {
 func (c *ctl) hook() {
 	c.sched = mocks.NewRecScheduler()
 	c.sched.RunInline = true // RunJobIfExists (fast track, propose early) really runs the job
-	c.cs = &clockSched{RecScheduler: c.sched, ct: c.ct}
+	c.cx = newCtxSched(c.sched, func() time.Time { return c.ct.StartOfSlot(c.ct.CurrentSlot()) })
+	c.cs = &clockSched{ctxSched: c.cx, ct: c.ct}
 	c.ev = mocks.NewEventsProvider()
 	deps := &controller.VerifDeps{
 		LogLevel:                    c.level,
@@ -743,7 +759,7 @@ func (c *ctl) snapshot(t *testing.T) string {
 		term string
 	}
 	var ents []ent
-	for _, j := range c.sched.Snapshot() {
+	for _, j := range c.cx.Snapshot() {
 		if j.Periodic {
 			continue
 		}
@@ -824,11 +840,11 @@ func (c *ctl) apply(t *testing.T, op Op) {
 	case "tick":
 		if c.tick != nil {
 			c.svc.VerifEpochTicker(ctx, c.tick)
-		} else if j, ok := c.sched.Get("Epoch ticker"); ok {
-			j.Func(ctx)
-		} else {
-			t.Fatalf("no epoch ticker")
+		} else if j, ok := c.cx.Get("Epoch ticker"); ok {
+			jctx, _ := c.cx.jobContext("Epoch ticker", ctx)
+			j.Func(jctx)
 		}
+		// no ticker (its parent context is done): the tick does not happen, the tables show it
 	case "head":
 		ev := &apiv1.Event{Topic: "head", Data: &apiv1.HeadEvent{Slot: phase0.Slot(op.Slot), Block: rootOf(1000 + op.Slot),
 			PreviousDutyDependentRoot: rootOf(op.Prev), CurrentDutyDependentRoot: rootOf(op.Cur)}}
@@ -841,7 +857,7 @@ func (c *ctl) apply(t *testing.T, op Op) {
 		c.w.mu.Lock()
 		c.w.headSlot = op.HeadSlot
 		c.w.mu.Unlock()
-		c.sched.Fire(ctx, jobName(op.Job, op.Num))
+		c.cx.Fire(ctx, jobName(op.Job, op.Num))
 	case "schedatt":
 		c.svc.VerifScheduleAttestations(ctx, phase0.Epoch(op.Epoch), c.indices(), op.NotCur)
 	case "schedprop":
@@ -979,6 +995,11 @@ func runHist(t *testing.T, h *Hist, level zerolog.Level) (term string, nontrivia
 		} else {
 			reorg = "(0, 0, 0)"
 		}
+		// Fake time stops when this function returns and a goroutine still waiting for a timer then
+		// counts as a deadlock of the bubble.  The controller leaves none behind; code that bounds a
+		// context (context.WithTimeout) and lets it run out does: let every such timer fire.
+		time.Sleep(50 * 365 * 24 * time.Hour)
+		synctest.Wait()
 	})
 	ops := make([]string, 0, len(h.Ops))
 	for _, op := range h.Ops {
@@ -1036,6 +1057,7 @@ func TestC03(t *testing.T) {
 	}
 	rng := NewRand(Seed())
 	col.Count(fmt.Sprintf("mock-chaintime-validated:%d", validateMockChainTime(t, NewRand(Seed()+77))))
+	col.Count(fmt.Sprintf("ctx-scheduler-validated-steps:%d", validateCtxSched(t, NewRand(Seed()+78))))
 	for i := 0; i < n; i++ {
 		ins = append(ins, gen(rng.Fork(), i))
 	}
